@@ -140,20 +140,18 @@ def check_grow(chk):
                 ti = ct.tinfo(v0.ctype)
                 return ti[0] == 'int' and ti[1] >= min_bits
             return True
-        tests = {'wrap': False, 'max': False}
-        for c, taken, loc in p.decisions:
-            c = pe.norm_cond(c)
-            if c.op == '<' and not taken and is_sum(c.args[0]) and pe.strip_casts(c.args[1]) == pages:
-                tests['wrap'] = True
-            if c.op == '>' and not taken and pe.strip_casts(c.args[1]) == maxp and is_sum(c.args[0]):
-                tests['max'] = True
-                if is_sum(c.args[0], 64):
-                    tests['wrap'] = True        # 64-bit page arithmetic cannot wrap for 32-bit operands
+        rels = pe.relations(p)
+        is_pages = lambda v: pe.strip_casts(v) == pages
+        is_max = lambda v: pe.strip_casts(v) == maxp
+        is_zero = lambda v: v == 0
+        tests = {'wrap': pe.has_relation(rels, '>=', is_sum, is_pages),          # not (new < old)
+                 'max': pe.has_relation(rels, '<=', is_sum, is_max)}             # not (new > max)
+        if pe.has_relation(rels, '<=', lambda v: is_sum(v, 64), is_max):
+            tests['wrap'] = True            # 64-bit page arithmetic cannot wrap for 32-bit operands
         if isinstance(p.ret, int) and not writes:
             # a constant result (the "nothing to do" case) is only right when the old size is provably that constant:
             # new == 0 together with the wrap test gives old == 0
-            zero_new = any(pe.norm_cond(c).op == '==' and t and is_sum(pe.norm_cond(c).args[0]) and pe.norm_cond(c).args[1] == 0
-                           for c, t, _ in p.decisions)
+            zero_new = pe.has_relation(rels, '==', is_sum, is_zero)
             chk.expect(p.ret == 0 and zero_new and tests['wrap'], 'R05.3', 'constant-result[%s]' % cond[:60],
                        'memory.grow returns the constant %r on path %s without having excluded 32-bit wrap-around of old + delta: with '
                        'old = 3 and delta = 2^32 - 3 the page count wraps to 0 and the call reports old size 0 instead of failing with -1'
